@@ -443,3 +443,158 @@ def read_mask_write(rng):
         else:
             a.emit(src, "SLOAD", dst, "SSTORE")
     return a.assemble(), {"rmw"}
+
+
+# ---------------------------------------------------------------------------------------------- storage look-alikes
+
+def _hash_mapping(a, rng, slot_const):
+    """keccak(key || slot_const) left on the stack (the mapping idiom), key symbolic."""
+    a.emit(rng.choice(["CALLER", "CALLVALUE", 4]), *(["CALLDATALOAD"] if rng.random() < 0.4 else []))
+    a.emit(0, "MSTORE", slot_const if slot_const else ("push", 0, 1), 0x20, "MSTORE", 0x40, 0, "SHA3")
+
+
+def _hash_array(a, rng, slot_const, prefolded_hash=None):
+    """keccak(slot_const) + i left on the stack (the dynamic array idiom)."""
+    if prefolded_hash is not None:
+        a.emit(("push", prefolded_hash, 32))
+    else:
+        a.emit(slot_const if slot_const else ("push", 0, 1), 0, "MSTORE", 0x20, 0, "SHA3")
+    a.emit(4, "CALLDATALOAD", "ADD")
+
+
+def _sink(a, rng, allow_value_side=False):
+    """Consumes the top of the stack in a way that is not a storage *key*."""
+    sinks = ["pop", "mstore", "log", "return", "call-arg", "revert", "eq-jumpi"]
+    if allow_value_side:
+        sinks += ["sstore-value"]
+    s = rng.choice(sinks)
+    if s == "pop":
+        a.emit("POP")
+    elif s == "mstore":
+        a.emit(0x80, "MSTORE")
+    elif s == "log":
+        a.emit(0x80, "MSTORE", 0x20, 0x80, "LOG0")
+    elif s == "return":
+        a.emit(0x80, "MSTORE", 0x20, 0x80, "RETURN")
+    elif s == "revert":
+        a.emit(0x80, "MSTORE", 0x20, 0x80, "REVERT")
+    elif s == "call-arg":
+        a.emit(0x80, "MSTORE", 0, 0, 0x20, 0x80, 0, "CALLER", "GAS", "CALL", "POP")
+    elif s == "eq-jumpi":
+        a.emit("CALLVALUE", "EQ", "POP")
+    elif s == "sstore-value":
+        a.emit(0x40 + rng.randrange(4), "SSTORE")
+    return s
+
+
+def lookalike(rng, hash_table_items, with_storage=False, allow_value_side=False):
+    """Programs full of keccak(key||const), keccak(const)+i, literal hashes of small integers, masks and arithmetic.
+    Without `with_storage` no SLOAD/SSTORE byte is ever executed. Returns (code, info)."""
+    a = evm.Asm()
+    info = {"fake_slots": set(), "real_slots": set(), "sinks": set(), "value_side": set()}
+    nb = rng.randint(1, 5)
+    a.emit(0, "CALLDATALOAD", 0xe0, "SHR")
+    for b in range(nb):
+        a.emit("DUP1", ("push", 0xb0000000 + b, 4), "EQ")
+        a.jumpi("B%d" % b)
+    a.emit("STOP")
+    for b in range(nb):
+        a.label("B%d" % b)
+        for _ in range(rng.randint(1, 4)):
+            r = rng.random()
+            fake = rng.choice([0, 1, 2, 3, 5, 9, 17, 200, 9999, 1 << 64])
+            if r < 0.30:
+                _hash_mapping(a, rng, fake)
+                if rng.random() < 0.3:
+                    # nested
+                    a.emit(0x20, "MSTORE", "CALLER", 0, "MSTORE", 0x40, 0, "SHA3")
+            elif r < 0.55:
+                _hash_array(a, rng, fake)
+            elif r < 0.7 and hash_table_items:
+                h, i = rng.choice(hash_table_items)
+                fake = i
+                _hash_array(a, rng, i, prefolded_hash=h)
+            elif r < 0.8:
+                a.emit("CALLVALUE", ("push", (1 << 160) - 1, 20), "AND", fake, "ADD")
+            else:
+                a.emit(("push", rng.getrandbits(256), 32), fake, "XOR")
+            info["fake_slots"].add(fake)
+            s = _sink(a, rng, allow_value_side and with_storage)
+            info["sinks"].add(s)
+            if s == "sstore-value":
+                info["value_side"].add(fake)
+                info["real_slots"].update(range(0x40, 0x44))
+            if s in ("return", "revert"):
+                break
+        if with_storage and rng.random() < 0.8:
+            real = rng.choice([0x10, 0x11, 0x12, 0x13, 0x14])
+            info["real_slots"].add(real)
+            k = rng.random()
+            if k < 0.3:
+                a.emit(real, "SLOAD", "POP")
+            elif k < 0.55:
+                a.emit("CALLVALUE", real, "SSTORE")
+            elif k < 0.8:
+                _hash_mapping(a, rng, real)
+                a.emit("SLOAD", "POP")
+            else:
+                a.emit("CALLVALUE")
+                _hash_array(a, rng, real)
+                a.emit("SSTORE")
+        a.emit("STOP")
+    return a.assemble(), info
+
+
+def literal_keys(rng, B):
+    """Programs performing SLOAD / SSTORE with literal constant keys placed on the first path, behind forks, in
+    threads that die afterwards, and amid noise. Returns (code, keys)."""
+    a = evm.Asm()
+    keys = {}
+    nb = rng.randint(1, 5)
+
+    def access():
+        k = rng.choice(B) if rng.random() < 0.7 else rng.getrandbits(rng.choice([8, 64, 65, 128, 129, 255, 256]))
+        mode = rng.choice(["r", "w", "rw", "wr"])
+        keys.setdefault(k, set()).add(mode)
+        kp = k if k else ("push", 0, 1)
+        if rng.random() < 0.3:
+            kp = ("push", k, 32)
+        for m in mode:
+            if m == "r":
+                a.emit(kp, "SLOAD", rng.choice(["POP", "POP", "ISZERO"]))
+                if rng.random() < 0.3:
+                    a.emit("POP") if False else None
+            else:
+                a.emit(rng.choice(["CALLVALUE", "CALLER", 1, ("push", 0, 1)]), kp, "SSTORE")
+
+    def noise():
+        r = rng.random()
+        if r < 0.3:
+            a.emit("CALLVALUE")
+            for _ in range(rng.randint(1, 12)):
+                a.emit("DUP1", rng.choice(["MUL", "ADD"]))
+            a.emit("POP")
+        elif r < 0.5:
+            a.emit("CALLVALUE", 0, "MSTORE", 0x20, 0, "SHA3", "POP")
+        elif r < 0.7:
+            a.emit(4, "CALLDATALOAD", ("push", (1 << 160) - 1, 20), "AND", "POP")
+
+    if rng.random() < 0.6:
+        access()
+    for b in range(nb):
+        a.emit(rng.choice(["CALLVALUE", "CALLDATASIZE", 1, ("push", 0, 1)]))
+        a.jumpi("B%d" % b)
+        if rng.random() < 0.4:
+            noise()
+    if rng.random() < 0.5:
+        access()
+    a.emit(rng.choice(["STOP", "INVALID", ["CALLVALUE", "JUMP"], [0xffff, "JUMP"]]))
+    for b in range(nb):
+        a.label("B%d" % b)
+        noise()
+        for _ in range(rng.randint(1, 3)):
+            access()
+        # the thread then ends in one of several ways, some of them errors
+        a.emit(rng.choice(["STOP", [0xfffd, "JUMP"], [0xfffe, "JUMP"], ["CALLVALUE", "JUMP"], "INVALID",
+                           [0, 0, "REVERT"], ["CALLER", "SELFDESTRUCT"], [3, "JUMP"]]))
+    return a.assemble(), keys
